@@ -383,7 +383,7 @@ wait:
 			} else {
 				lastOps, still = n, 0
 			}
-			if still >= 30 {
+			if still >= 60 {
 				hung = true
 				break wait
 			}
@@ -391,7 +391,7 @@ wait:
 	}
 	close(stop)
 	if hung {
-		add("no-progress", "", "concurrent queries and writers made no progress for 30 s (%d logical events)", clock.Load())
+		add("no-progress", "", "concurrent queries and writers made no progress for 60 s (%d logical events)", clock.Load())
 	}
 	// quiescent end state: one more List equals the model exactly
 	if !hung && len(res.Viols) == 0 {
